@@ -289,6 +289,9 @@ func setupRoot() string {
 		os.WriteFile(filepath.Join(root, "flows", "ql.yaml"), []byte(limiterFlow("fq", "h.com/q/*", "Q")), 0o644)
 		os.WriteFile(filepath.Join(root, "quotas", "q.yaml"), []byte(quotaQ), 0o644)
 		os.WriteFile(filepath.Join(root, "path_params", "pp.yaml"), []byte("path_params:\n  - url: h.com/old/{id}\n"), 0o644)
+		// zero-byte files that belong to the configuration (placeholders)
+		os.WriteFile(filepath.Join(root, "path_params", ".gitkeep"), nil, 0o644)
+		os.WriteFile(filepath.Join(root, "flows", ".gitkeep"), nil, 0o644)
 	}
 	os.WriteFile(filepath.Join(root, "gateway_config.yaml"), []byte("allowed_domains: []\n"), 0o644)
 	// the stock metrics.yaml without the two duration histograms (they start a ticker
